@@ -13,6 +13,8 @@ on and off; the statement's inequalities are checked with exact float comparison
 and small grids through the public `apply` (serial / parallel, failsafe, time encodings, memory layouts, construction order).
 'options' cases: the documented non-default calculation settings of each debiaser (ecdf / iecdf method, cdf_threshold, detrending,
 mapping type, the ISIMIP step switches), every listed value at least once per run (OPTION_SPACE).
+'zero-threshold' cases: ISIMIP with the lower threshold ON the lower bound 0 (quantifier: configurations); 'time-slices' cases: time axes
+made of non-adjacent periods, year windows of several lengths / steps (quantifier: inputs).
 """
 import datetime
 import logging
@@ -372,6 +374,54 @@ def gen_case(rng, name, var, mode, tier, long_future=False, regime=None):
             case["pdry"] = [round(rng.uniform(0.05, 0.5), 3) for _ in range(3)]
             case["wet_floor"], case["years"] = 0.0, 5
             case["sequence"] = rng.choice(SEQUENCES[name])
+        if regime == "zero-threshold":
+            # quantifier "configurations": the lower threshold coincides with the lower bound 0 (every positive amount is a wet day; the usual
+            # setting for pr in mm/day) — a threshold whose VALUE is zero (0.0 / 0 / -0.0) is a set threshold all the same.  Bell-shaped wet
+            # amounts with density near zero (a fit whose location is not pinned to the threshold gets a negative location), in both units.
+            case["regime"] = regime
+            case["shape"] = [round(rng.choice([rng.uniform(1.2, 2.5), rng.uniform(2.0, 6.0)]), 2) for _ in range(3)]
+            case["scale"] = [rng.choice([2e-5, 3e-5, 5e-5]) for _ in range(3)]
+            po = rng.uniform(0.3, 0.6)
+            case["pdry"] = [round(po, 3), round(rng.uniform(0.05, po - 0.1), 3), round(rng.uniform(0.05, 0.5), 3)]
+            case["drizzle"], case["at_threshold"], case["wet_floor"] = rng.choice([0.0, 0.05]), 0, 0.0
+            case["years"] = rng.choice([6, 10])
+            case["unit_factor"] = rng.choice([DAY, DAY, 1.0])
+            zero = rng.choice([0.0, 0.0, 0, -0.0])
+            case["options"] = {"lower_bound": zero, "lower_threshold": zero}
+        if regime == "time-slices":
+            # quantifier "inputs": a time axis made of non-adjacent periods (two or three time slices of a scenario run concatenated, e.g.
+            # 2031-2040 + 2081-2090; an observational record with a gap).  Every time step of such an axis is output all the same: never
+            # NaN (= never left unwritten), never negative, 0 or >= the threshold.  CDFt / QDM: with several year-window lengths / steps.
+            case["regime"] = regime
+            case["pdry"] = [round(min(p, 0.6), 3) for p in case["pdry"]]
+            case["years"] = 4
+
+            def slices(y, k):
+                spec = []
+                for _ in range(k):
+                    ny = rng.randint(3, 8)
+                    spec.append([y, 365 * ny + rng.randint(0, 25), rng.randint(0, 200)])
+                    y += ny + rng.randint(2, 45)
+                return spec
+            case["slices"] = {"cm_future": slices(2015 + rng.randint(0, 30), rng.choice([2, 2, 3]))}
+            if rng.random() < 0.35:
+                case["slices"]["obs"] = slices(1890 + rng.randint(0, 30), 2)
+                case["slices"]["cm_hist"] = case["slices"]["obs"] if rng.random() < 0.5 else None
+            if name.split("-")[0] in ("CDFt", "QuantileDeltaMapping"):
+                case["year_windows"] = True
+                step = rng.choice([3, 5, 9, 9])
+                case["options"] = {"running_window_over_years_of_cm_future_length": rng.choice([w for w in (5, 9, 17, 17) if w >= step]),
+                                   "running_window_over_years_of_cm_future_step_length": step}
+            if name == "ISIMIP":
+                case["pdry"] = [round(min(p, 0.5), 3) for p in case["pdry"]]
+    elif regime == "zero-threshold":
+        # as for pr: lower_threshold = lower_bound = 0 for the other variables bounded below by 0 (doubly bounded ones with the parametric step 6)
+        case["regime"] = regime
+        case["parametric"] = var in ("hurs", "prsnratio", "tasskew")
+        case["bias"] = [rng.choice([-1, 0, 1]) for _ in range(3)]
+        case["nan_fraction"] = 0.0
+        case["years"] = max(case["years"], 4)
+        case["options"] = {"lower_threshold": rng.choice([0.0, 0.0, 0, -0.0])}
     elif regime == "polar":
         case.update(regime=regime, polar=True, whole_years=True, years=4, lookup_path=rng.random() < 0.4)
         case["bias"] = [rng.choice([-1, 0, 1]) for _ in range(3)]
@@ -467,6 +517,13 @@ def build_inputs(case, dates=None, data_seed=None):
             tO = span(1961 + 4 * int(nprs.randint(0, 8)), 3)
     if case.get("dates_from_1950"):  # the axes the library infers when no time arrays are passed: consecutive days from 1950-01-01
         tO, tH, tF = dates_from(1950, tO.size), dates_from(1950, tH.size), dates_from(1950, tF.size)
+    if case.get("slices"):  # 'time-slices' cases: a time axis made of non-adjacent periods [[first year, days, offset in days], ...]
+        def sliced(spec):
+            return np.concatenate([dates_from(int(y), int(nd), int(off)) for y, nd, off in spec])
+        sl = case["slices"]
+        tF = sliced(sl["cm_future"])
+        tO = sliced(sl["obs"]) if sl.get("obs") else tO
+        tH = sliced(sl["cm_hist"]) if sl.get("cm_hist") else tH
     if dates is not None:
         tO, tH, tF = dates
     var = case["variable"]
@@ -474,6 +531,8 @@ def build_inputs(case, dates=None, data_seed=None):
         series = [gen_pr(nprs, t.size, case["pdry"][k], case["shape"][k], case["scale"][k], case["drizzle"], case["at_threshold"],
                          case.get("wet_floor", 0.0))
                   for k, t in enumerate((tO, tH, tF))]
+        if case.get("unit_factor"):  # the same amounts in another unit (86400: mm/day instead of kg m-2 s-1)
+            series = [x * float(case["unit_factor"]) for x in series]
     else:
         series = [gen_var(nprs, var, t, case["bias"][k], polar=bool(case.get("polar"))) for k, t in enumerate((tO, tH, tF))]
         if case.get("nan_fraction"):
@@ -644,6 +703,7 @@ GRID_TIMES = ("date", "M8D", "datetime", "M8ns", "none", "plain", "M8s", "M8h")
 GRID_CONSTRUCT = ("kwargs", "kwargs", "assign-after", "pickled", "deepcopy")
 WINDOW_ATTRS = ("running_window_mode", "running_window_length", "running_window_step_length", "running_window_mode_over_years_of_cm_future")
 GRID_CHEAP = ("LinearScaling", "DeltaChange")
+R7_TAGS = ("zero-threshold", "time-slices")
 
 
 def gen_grid_case(rng, name, var, mode, tier, k, offsets):
@@ -932,6 +992,10 @@ def run(tier, res, force_search=False):
         "detrending multiplicative / none, mapping_type, mode_non_parametric_qm, nonparametric_qm, event_likelihood_adjustment, ks_test_for_goodness_of_cdf_fit, "
         "trend_transfer_only_for_values_within_threshold, bias_correct_frequencies_of_values_beyond_thresholds) are judged with the same comparisons; settings that "
         "make the debiaser one for another kind of variable (additive delta / detrending for pr, other bounds or distributions) are not generated",
+        "'zero-threshold' cases: ISIMIP with lower_threshold = lower_bound = 0 (spelled 0.0 / 0 / -0.0; pr in kg m-2 s-1 and in mm/day, sfcwind, tasrange, and hurs / "
+        "prsnratio / tasskew with the parametric step 6) is a configuration inside lb <= lower_threshold and is judged with the same comparisons",
+        "'time-slices' cases: time axes made of two or three non-adjacent periods (cm_future always, obs / cm_hist sometimes), CDFt / QDM with year windows of "
+        "length 5 / 9 / 17 moved by 3 / 5 / 9 years; every time step of the axis is output (a step never written = NaN under the hook is a failing input)",
     ]
     lean_ok = C.lean_phase(res, PROP, GEN, TARGETS)
     res.extra["t_lean_s"] = round(time.time() - t0, 1)
@@ -1014,12 +1078,20 @@ def run(tier, res, force_search=False):
         # doubly bounded variables with the parametric step 6 and near-bound data (rsds: only its own statement, >= 0)
         for j, var in enumerate(("hurs", "prsnratio", "tasskew")):
             plan.append(("ISIMIP", var, ("nowin", "win")[(r + j) % 2], "near-bound"))
+        # a lower threshold equal to the lower bound 0 (pr in both units; the other variables in turn); time axes made of non-adjacent slices
+        plan += [("ISIMIP", "pr", "nowin", "zero-threshold"), ("ISIMIP", "pr", ("win", "nowin")[r % 2], "zero-threshold"),
+                 ("ISIMIP", ("sfcwind", "tasrange", "hurs", "tasskew", "prsnratio")[r % 5], ("nowin", "win")[r % 2], "zero-threshold")]
+        plan += [("CDFt", "pr", ("nowin", "win")[r % 2], "time-slices"), ("QuantileDeltaMapping", "pr", ("win", "nowin")[r % 2], "time-slices"),
+                 (("CDFt", "QuantileDeltaMapping-forpr")[r % 2], "pr", "nowin", "time-slices"),
+                 (("ISIMIP", "ScaledDistributionMapping", "QuantileMapping-hurdle", "LinearScaling", "DeltaChange", "QuantileMapping-censored")[r % 6], "pr",
+                  ("nowin", "win")[(r // 2) % 2], "time-slices")]
     problems_all, stats, oracle_samples = [], {}, []
     rng_grid = random.Random(C.seed() * 1000003 + 1010)  # its own stream: the single-location cases of a seed stay what they were
     n_grid, grid_offsets = 0, [rng_grid.randint(0, 23) for _ in range(4)]
     rng_opt = random.Random(C.seed() * 1000003 + 1011)  # the 'options' cases: again a stream of their own
     n_opt, opt_offsets = {}, [rng_opt.randint(0, 71) for _ in range(8)]
-    budget_s = 90 if tier == "quick" else 480  # 75 / 450 before the 'options' cases (about 12 s in the quick tier) were added
+    budget_s = 100 if tier == "quick" else 520  # 75 / 450 before the 'options' cases (about 12 s in the quick tier), 90 / 480 before the 'zero-threshold' / 'time-slices' cases
+    rng_r7 = random.Random(C.seed() * 1000003 + 1012)  # 'zero-threshold' / 'time-slices' cases: a stream of their own
     for k, (name, var, mode, *rest) in enumerate(plan):
         if time.time() - t2 > budget_s * (3 if (force_search or not lean_ok or res.tie_broken) else 1):
             res.notes.append(f"oracle stopped after {k} of {len(plan)} planned cases (time budget)")
@@ -1032,10 +1104,14 @@ def run(tier, res, force_search=False):
             fam = name.split("-")[0]
             case = gen_options_case(rng_opt, name, var, mode, tier, n_opt.get(fam, 0), opt_offsets)
             n_opt[fam] = n_opt.get(fam, 0) + 1
+        elif tag in R7_TAGS:
+            case = gen_case(rng_r7, name, var, mode, tier, regime=tag)
         else:
             case = gen_case(rng, name, var, mode, tier, long_future=(tag == "long"), regime=(tag if tag in ("monsoon", "near-bound", "default-windows", "sequence", "bell", "polar") else None))
         t_case = time.time()
         status, problems, info = run_case(case)
+        if tag in R7_TAGS:
+            res.extra["t_oracle_zero_threshold_time_slices_s"] = round(res.extra.get("t_oracle_zero_threshold_time_slices_s", 0.0) + time.time() - t_case, 1)
         if tag == "grid":
             res.extra["t_oracle_grid_apply_s"] = round(res.extra.get("t_oracle_grid_apply_s", 0.0) + time.time() - t_case, 1)
         key = f"{name}/{var}/{mode}" + (f"/{tag}" if tag else "")
